@@ -420,7 +420,7 @@ func (repo *Repository) ProcessHeader(ctx context.Context, header *wire.BlockHea
 		repo.heights[*header.BlockHash()] = previousHeight + 1
 
 		longest := repo.branches.Longest()
-		if repo.longest != longest {
+		if repo.longest != longest && longest.IsLonger(repo.longest) {
 			logger.InfoWithFields(ctx, []logger.Field{
 				logger.Stringer("previous_block_hash", header.PrevBlock),
 				logger.Int("block_height", longest.Height()),
@@ -447,7 +447,7 @@ func (repo *Repository) ProcessHeader(ctx context.Context, header *wire.BlockHea
 	headersSent := false
 	if previousBranch != repo.longest {
 		longest := repo.branches.Longest()
-		if repo.longest != longest {
+		if repo.longest != longest && longest.IsLonger(repo.longest) {
 			logger.InfoWithFields(ctx, []logger.Field{
 				logger.Stringer("intersect_block_hash", repo.longest.IntersectHash(longest)),
 				logger.Int("block_height", longest.Height()),
